@@ -16,6 +16,7 @@ import AcnProofs.Lemmas.SortedGreedy
 import AcnProofs.Lemmas.SortedRR
 import AcnProofs.Lemmas.SortedPre
 import AcnProofs.Lemmas.SortedSim
+import AcnProofs.Lemmas.SortedSimRun
 
 set_option linter.unusedSectionVars false
 
@@ -344,10 +345,21 @@ theorem schedule_feasible [HasCeilNat K] (feas : List K → Bool) (cfg : Config 
      * pilots within the occupants' remaining demand (`le_remaining_*`) keep `delivered ≤ requested`
        and the battery invariant for every EV record through the whole `update_pilots` of the period
        (via C03's `0 ≤ rate ≤ pilot`).
-   NOT proved: the glue — the adapter `View → (sessions, infrastructure)`, that column `iter` of the
-   pilot matrix after `schedStage` is the scheduler's answer (C04 `overlay_refines`), and the
-   induction over `Sim.run` (C01 `Inv`).  Those are validated by the simulation-level oracle of the
-   C07 check (no warning, no InvalidRateError, delivered ≤ requested on whole simulations). -/
+   Also proved (`sim_period_composition`, below): with the modelled algorithm as `Sim` scheduler
+   (`AcnModel/SimSorted.lean`) the column applied in a period IS the algorithm's array, and that
+   array is feasible; other columns and the matrix shape are untouched.
+   NOT proved — exactly what is missing for the full statement:
+     (a) the link lemmas that discharge the hypotheses `Accepts …` / `pilot ≤ rapEv …` of the two
+         period theorems from `pilot_accepted_*` / `le_remaining_*` / `zero_for_inactive_*`: a queued
+         session at index k is the adapter's image of the occupant of station k, and preprocessing
+         keeps `idx`, `requested`, `delivered` and establishes `0 ≤ max_rate ≤ max_pilot`;
+     (b) the induction over `Sim.run`: C01 `Inv` at the state between `eventsStage` and `applyStage`
+         (distinct occupants), plus preservation of the matrix shape and of `LedgerOk` by `body`;
+     (c) the rampdown estimator (stateful across calls; `Sim`'s scheduler parameter is a pure
+         function of the view, so the adapter covers `estimate_max_rate = False`).
+   The composition is nevertheless TIED TO THE CODE: the C07/C08 checks run every generated whole
+   simulation without estimator through `Sim.run` with `SimSorted.sortedSched` and compare pilots,
+   rates, energies, iteration and error class with the real Simulator + real algorithm. -/
 theorem sim_no_invalid_rate_partial [HasExp K] (cfg : Sim.Cfg K) (htol : TolOk cfg) (s : Sim.State K)
     (h : ∀ k st, cfg.stations[k]? = some st →
       Accepts st.kind ((Sim.widen s).pilots.get k (Sim.widen s).core.iter)) :
@@ -402,6 +414,94 @@ theorem sim_delivered_le_requested_partial (cfg : Sim.Cfg ℝ) (hT : 0 < cfg.per
     ∀ e ∈ (Sim.updatePilots cfg s).1.evs, LedgerOk e :=
   updatePilotsFrom_ledger cfg hT cfg.stations 0 s hV hinv hdist
     (by intro k st hk e he; rw [Nat.zero_add]; exact hp k st hk e he)
+
+/-- the array returned by a successful `schedule()` call has one entry per station -/
+theorem schedule_length [HasCeilNat K] (feas : List K → Bool) (cfg : Config K) (infra : Infra K)
+    (period : K) (time : Int) (prev : String → Option (K × K)) (rd : Rampdown K)
+    (raw l : List (Session K)) (sch : List K)
+    (hres : resolve infra raw = .ok l) (hlen : infra.allow.length = infra.ids.length)
+    (hnd : ((scheduleCall feas cfg infra period time prev rd raw).order.map (·.idx)).Nodup)
+    (hidx : ∀ s ∈ (scheduleCall feas cfg infra period time prev rd raw).order, s.idx < infra.ids.length)
+    (h : (scheduleCall feas cfg infra period time prev rd raw).result = .ok sch) :
+    sch.length = infra.ids.length := by
+  unfold scheduleCall at h hnd hidx
+  simp only [hres] at h hnd hidx
+  cases hal : cfg.algo with
+  | greedy =>
+    simp only [hal] at h hnd hidx
+    exact (zero_for_inactive_greedy feas cfg.fuel cfg.eps infra period _ sch hnd h).1
+  | roundRobin =>
+    simp only [hal] at h hnd hidx
+    cases hrr : roundRobin feas (rrLevels infra period cfg.inc) infra
+        (sortSessions cfg.sort infra period time (preprocess feas cfg infra period prev rd l).1) with
+    | error e => simp only [hrr] at h; cases h
+    | ok st =>
+      simp only [hrr] at h hidx
+      cases h
+      exact (zero_for_inactive_rr feas _ infra _ st hidx hlen hrr).1
+
+/-- `sim_period_composition`: ONE period of the shared simulator model with the MODELLED sorted
+    algorithm as scheduler (`SimSorted.sortedSched`, the adapter from the `View`).  If `schedStage`
+    returns the new pilot matrix `m`, then there is an array `sch` — the result of the modelled
+    `schedule()` call on the sessions / infrastructure read off the view — such that
+      * `sch` passes the feasibility predicate of the network (`schedule_feasible`),
+      * column `iter` of `m` is `sch`, station by station (C04 `submit_get`): the column
+        `update_pilots` applies in this period satisfies the feasibility predicate,
+      * every other column and the shape invariant of the matrix are unchanged.
+    Hypotheses: distinct station ids, at least one station, well-formed matrix, and — as in
+    `schedule_feasible` — resolved sessions with `min_rates ≤ 0` (the adapter sets 0) and a queue
+    with distinct valid station indices (C01: one session per EVSE). -/
+theorem sim_period_composition [HasCeilNat K] [HasExp K] (net : SimSorted.NetInfo K) (inf : K)
+    (cfg : Sim.Cfg K) (scfg : Config K) (s : Sim.State K) (m : Pilots.Mat K)
+    (l : List (Session K))
+    (hids : (SimSorted.infraOf inf cfg).ids.Nodup) (hne : (SimSorted.infraOf inf cfg).ids ≠ [])
+    (hwf : s.pilots.WF (SimSorted.infraOf inf cfg).ids.length)
+    (hinf : InfraOk (SimSorted.infraOf inf cfg))
+    (hres : resolve (SimSorted.infraOf inf cfg)
+      ((Sim.view cfg s).active.map (SimSorted.sessionOfEv inf (Sim.view cfg s).iter)) = .ok l)
+    (hmin : ∀ x ∈ l, x.minRate ≤ 0)
+    (hnd : ((scheduleCall (SimSorted.feasOf net) { scfg with estimate := false }
+      (SimSorted.infraOf inf cfg) cfg.period ((Sim.view cfg s).iter : Int) (fun _ => none)
+      { upTh := 0, downTh := 0, upInc := 0, bounds := [] }
+      ((Sim.view cfg s).active.map (SimSorted.sessionOfEv inf (Sim.view cfg s).iter))).order.map (·.idx)).Nodup)
+    (hidx : ∀ x ∈ (scheduleCall (SimSorted.feasOf net) { scfg with estimate := false }
+      (SimSorted.infraOf inf cfg) cfg.period ((Sim.view cfg s).iter : Int) (fun _ => none)
+      { upTh := 0, downTh := 0, upInc := 0, bounds := [] }
+      ((Sim.view cfg s).active.map (SimSorted.sessionOfEv inf (Sim.view cfg s).iter))).order,
+      x.idx < (SimSorted.infraOf inf cfg).ids.length)
+    (h : Sim.schedStage cfg (SimSorted.sortedSched net inf cfg scfg) s = .ok m) :
+    ∃ sch : List K,
+      SimSorted.feasOf net sch = true ∧ sch.length = (SimSorted.infraOf inf cfg).ids.length ∧
+      m.WF (SimSorted.infraOf inf cfg).ids.length ∧
+      (∀ k, k < (SimSorted.infraOf inf cfg).ids.length → m.get k s.core.iter = sch.getD k 0) ∧
+      (∀ k τ, k < (SimSorted.infraOf inf cfg).ids.length → τ ≠ s.core.iter →
+        m.get k τ = s.pilots.get k τ) := by
+  have hlen : (SimSorted.infraOf inf cfg).allow.length = (SimSorted.infraOf inf cfg).ids.length := by
+    simp [SimSorted.infraOf]
+  unfold Sim.schedStage at h
+  split at h
+  · cases h
+  · unfold SimSorted.sortedSched at h
+    simp only at h
+    cases hr : (scheduleCall (SimSorted.feasOf net) { scfg with estimate := false }
+        (SimSorted.infraOf inf cfg) cfg.period ((Sim.view cfg s).iter : Int) (fun _ => none)
+        { upTh := 0, downTh := 0, upInc := 0, bounds := [] }
+        ((Sim.view cfg s).active.map (SimSorted.sessionOfEv inf (Sim.view cfg s).iter))).result with
+    | error e => rw [hr] at h; cases h
+    | ok sch =>
+      rw [hr] at h
+      simp only at h
+      have hfe := schedule_feasible _ _ _ _ _ _ _ _ l sch hres hinf hlen hmin hnd hidx hr
+      have hl := schedule_length _ _ _ _ _ _ _ _ l sch hres hlen hnd hidx hr
+      split at h
+      · cases h
+      · rename_i m' hup
+        cases h
+        have hids' : (SimSorted.infraOf inf cfg).ids = cfg.stations.map (·.id) := rfl
+        rw [← hids'] at hup
+        obtain ⟨h1, h2, h3⟩ := update_with_array (SimSorted.infraOf inf cfg) hids hne sch hl
+          s.pilots m hwf s.core.iter _ hup
+        exact ⟨sch, hfe, hl, h1, h2, h3⟩
 
 /-! ### non-vacuity: concrete instances over ℚ on which the hypotheses hold and the algorithms run -/
 
